@@ -86,6 +86,46 @@ TABLE = {
                'a Batch reduction called with skipna=False on Frames that contain NaN'),
     'C20-a2': ('C20', 'Frame.relabel_shift_out reads the labels of the moved levels in ascending level order instead of the caller\'s depth_level order',
                'relabel_shift_out on an IndexHierarchy axis with a depth_level list that is not ascending'),
+    'C01-a3': ('C01', 'PositionsAllocator.get grows the shared positions array with np.concatenate and stores the writable result in the class slot',
+               'an auto-integer index (or any container with default labels) longer than every one made before in the process; its positions array is then writable and shared'),
+    'C02-a3': ('C02', "IndexHierarchy.__init__ adopts the donor's cached table when `levels._blocks is not None` instead of `not levels._recache`",
+               'a hierarchy derived (copy constructor, rename, to static) from an IndexHierarchyGO that grew after its table had been realised'),
+    'C03-a3': ('C03', 'TypeBlocks._slice_blocks detects a single selected row of a slice key by `stop - start == 1`, ignoring the step',
+               'a row slice with a step other than 1 that selects exactly one row, on a Frame holding a multi-column 2-D block'),
+    'C04-a3': ('C04', "Frame._extract sets own_columns = True for the grow-only class too (rows-only selection shares the source's IndexGO columns)",
+               'a rows-only selection from a FrameGO followed by growth of the selection or of the source'),
+    'C05-a3': ('C05', "the HLoc worklist of IndexLevel.loc_to_iloc pushes children with the node's own offset instead of the accumulated offset",
+               'an HLoc selection on a hierarchy of depth >= 3 below an outer label that is not the first'),
+    'C06-a3': ('C06', 'IndexLevel.equals keys its memo of compared index pairs on the left operand twice',
+               'two hierarchies where one Index object is shared by several left sub-levels whose right-hand partners differ'),
+    'C07-a3': ('C07', 'TypeBlocks.append compares dtype.kind (not dtype) to decide whether the cached row dtype must widen',
+               'a FrameGO grown with a wider block of the same kind (<U1 then <U4, int8 then int64) followed by a row-wise read'),
+    'C08-a3': ('C08', "IndexHierarchy.__init__ adopts the donor's table when `_blocks is not None` (reached through rename / relabel, which rely on the constructor)",
+               'rename of an IndexHierarchyGO (or of FrameGO hierarchical columns) that grew after its table had been realised'),
+    'C09-a3': ('C09', 'IndexLevelGO.append checks that the matched component is the last label at the outermost depth only',
+               'a depth >= 3 IndexHierarchyGO and an appended key under the last outer label but a non-last inner label'),
+    'C10-a3': ('C10', 'TypeBlocks.equals switches skipna off when the row dtype kind is not float / complex / object',
+               'two Frames equal except that both hold NaT at the same position of datetime64 / timedelta64 columns'),
+    'C11-a3': ('C11', "concat_resolved resolves each input's dtype against the first input's dtype instead of the dtype carried so far",
+               'three or more inputs of which one in the middle has a strictly wider dtype than the first and the last'),
+    'C12-a3': ('C12', 'the descending branch of Series.sort_values calls np.argsort without kind=',
+               'a descending sort with tied keys (more than 16 elements for most dtypes)'),
+    'C13-a3': ('C13', 'Series._axis_group_labels no longer forwards depth_level to _axis_group_labels_items (and its default becomes None)',
+               'iter_group_labels(depth_level != 0) iterated directly on a Series with a hierarchical index'),
+    'C14-a3': ('C14', 'Series.fillna(<Series>) reindexes the filler to the sorted common labels and then stores by position',
+               'a target whose index is not label-sorted and at least two missing cells covered by the filler'),
+    'C15-a3': ('C15', 'Frame._ufunc_shape_skipna uses the NaN-aware ufunc only when the consolidated values are float / complex',
+               'cumsum / cumprod with skipna=True on a bool + float (object values) Frame containing NaN'),
+    'C16-a3': ('C16', 'TypeBlocks.append compares dtype.kind to decide whether the cached row dtype must widen',
+               'a FrameGO grown with a wider block of the same kind, exported row-wise (to_pairs(1), iter_tuple, values)'),
+    'C17-a3': ('C17', 'the multi-process branch of _StoreZip.read_many builds one read config from config_map.default',
+               'a zip csv/tsv/parquet store read with read_max_workers set through a StoreConfigMap whose per-label configs differ from the default'),
+    'C18-a3': ('C18', 'the pooled branch of Batch.apply_items yields frame.name where the in-process branch passes the Batch label',
+               'a pooled Batch (max_workers set) whose labels differ from the names of its Frames, and a function that uses its label'),
+    'C19-a3': ('C19', 'Quilt._extract returns the only Frame of a one-Frame Bus before looking at retain_labels',
+               'a Quilt over a Bus of exactly one Frame with retain_labels=True and a full export'),
+    'C20-a3': ('C20', 'pivot_index_map keeps the first dtype seen for a group (setdefault) instead of resolving it with the later ones',
+               'pivot_stack of hierarchical columns where one remaining group mixes dtypes, the narrower first'),
 }
 
 
@@ -100,6 +140,8 @@ def main() -> None:
             with open(cp) as f:
                 conf = json.load(f)
         suite = conf.get('suite') or {}
+        rp = os.path.join(d, 'reconfirm.json')
+        reconf = json.load(open(rp)) if os.path.exists(rp) else {}
         meta = {
             'id': sid,
             'breaks_property': prop,
@@ -113,7 +155,8 @@ def main() -> None:
                 'demo_on_changed_tree_exit': conf.get('demo_patched_rc'),
                 'pinned_suite_with_change': ({'stable_tests_missing_after_rerun': [m for m, _w in suite.get('missing_confirmed', [])],
                                               'passed_total': suite.get('passed')} if suite else 'not run'),
-                'checks_reporting_a_violation': {p: sorted({x.split(' ')[1] for x in v if x.startswith('violated:')}) for p, v in (conf.get('checks_fired') or {}).items()},
+                'checks_reporting_a_violation': {p: sorted({x.split(' ')[1] for x in v if x.startswith('violated:')}) for p, v in ((reconf or conf).get('checks_fired') or {}).items()},
+                'checks_re_run_against_final_tree': bool(reconf) and bool(reconf.get('confirmed')),
             },
             'confirmed': conf.get('confirmed'),
         }
